@@ -1,4 +1,9 @@
-import Preflate.Props.C05
+import Preflate.Props.C05Public
+#print axioms Preflate.public_outcomes
+#print axioms Preflate.public_no_panic
+#print axioms Preflate.estimate_no_panic
+#print axioms Preflate.estimate_outcomes
+#print axioms Preflate.encStream_only_err
 #print axioms Preflate.parse_no_panic
 #print axioms Preflate.parse_no_fuel
 #print axioms Preflate.tree_index_safe
